@@ -46,6 +46,11 @@ fn every_method_pass() -> Vec<Op> {
         Op::ChmodB(s("/a"), ChmodO { all: None, dirs: Some(0o755), files: None, sym: Some(s("f:u+x")), recurse: Some(true), follow: false }),
         Op::Chown(s("/a/g"), 1000, 1000),
         Op::ChownB(s("/a/b"), ChownO { uid: Some(1000), gid: None, recurse: Some(false), follow: true }),
+        // distinct ids, so that an owner / uid / gid accessor that answers with the wrong field shows (the real
+        // backend refuses these as uid 1000, identically on both sides)
+        Op::Chown(s("/a/f"), 11, 12),
+        Op::ChownB(s("/a"), ChownO { uid: None, gid: Some(7), recurse: Some(false), follow: false }),
+        Op::ChownB(s("/c"), ChownO { uid: Some(8), gid: None, recurse: None, follow: false }),
         Op::Copy(s("/a"), s("/d")),
         Op::CopyB(s("/a/f"), s("/c/f2"), CopyMode::Files(0o640), true),
         Op::MoveP(s("/d/h"), s("/c")),
